@@ -74,6 +74,10 @@ let parse_tok (t : string) : pitem * sitem option * value option =
     let vs = rest (co + 1) in
     let v = if is_float_spec ps then VFloat (n_of_hex vs) else VInt (z_of_dec vs) in
     (PNum (parse_spec ps, v), Some (SNum (parse_spec ss)), Some v)
+  | 'X' ->
+    let co = String.index t ':' in
+    let ss = String.sub t 1 (co - 1) in
+    (PLit (bytes_of_hex (rest (co + 1))), Some (SNum (parse_spec ss)), None)
   | _ -> failwith ("bad token " ^ t)
 let () =
   let mode = Sys.argv.(1) in
